@@ -263,7 +263,7 @@ def avdtp_fragment_sized(label, msg_type, signal, payload, sizes) -> list[bytes]
 
 class AvdtpReassembler:
     """Strict reference reassembler for a wire log of one direction of a signalling
-    channel. feed(pdu) -> (label, msg_type, signal, payload) | None; `errors` collects
+    channel. feed(pdu) -> (label, signal, msg_type, payload) | None; `errors` collects
     any train irregularity."""
 
     def __init__(self):
@@ -283,7 +283,7 @@ class AvdtpReassembler:
                 if len(pdu) < 2:
                     self.errors.append('short single')
                     return None
-                return label, mt, pdu[1] & 0x3F, bytes(pdu[2:])
+                return label, pdu[1] & 0x3F, mt, bytes(pdu[2:])
             if len(pdu) < 3:
                 self.errors.append('short start')
                 return None
@@ -304,7 +304,7 @@ class AvdtpReassembler:
             if c['got'] != c['n']:
                 self.errors.append(f'end after {c["got"]} packets, {c["n"]} announced')
                 return None
-            return c['label'], c['mt'], c['sig'], bytes(c['data'])
+            return c['label'], c['sig'], c['mt'], bytes(c['data'])
         if c['got'] >= c['n']:
             self.errors.append('more continue packets than announced')
         return None
